@@ -28,7 +28,7 @@ func init() {
 		Title: "Joins return the textbook multiset for every join type and strategy",
 		Rule: "rapid draws two tables (0-6 rows) with 1-3 key columns per side whose names are drawn independently (so they sort differently on " +
 			"the two sides), key values from shared pools of 2-3 values (duplicates, multi-column combinations, strings containing '-' and " +
-			"digits-as-text; a third of the numeric key columns are handed over as native Go int*/uint*/float32 values, independently per side), an ON tree of column-to-column comparisons (= != < <= > >=, either orientation) joined by AND/OR (depth<=3; pure " +
+			"digits-as-text; a third of the numeric key columns are handed over as native Go int*/uint*/float32 values, independently per side; a sixth of the pairs as int64 / uint64 beyond 2^53 on both sides, mapped back exactly from the raw result), an ON tree of column-to-column comparisons (= != < <= > >=, either orientation) joined by AND/OR (depth<=3; pure " +
 			"equi-conjunctions forced often) and a join type; every applicable spelling (JOIN, INNER JOIN, STRAIGHT_JOIN, [LEFT|RIGHT] [OUTER] JOIN, " +
 			"HASH_JOIN variants for pure equi ON, each also PARALLEL, PARALLEL ones repeated) plus a permuted/flipped ON is executed; oracle = " +
 			"nested-loop reference multiset {x:l,y:r} + unmatched outer rows once. Non-trivial: both sides non-empty, >=1 matching pair and, " +
